@@ -93,6 +93,41 @@ Valid ==
            h \in {0, 23}, mi \in {0, 59}, s \in {0, 59}, us \in {0, 999999, 123000}, p \in {0, 3, 6} }
   \cup { [kind |-> "range", term |-> RangeT(IntV(f), IntV(l), IntV(s)), fields |-> <<f, l, s>>] : f \in {0 - 5, 0, 7}, l \in {0 - 9, 0, 100}, s \in {1, 0 - 1, 3} }
   \cup { [kind |-> "range", term |-> RangeT(Big31, VInt(TRUE, <<1, 0, 0, 128>>), Big32), fields |-> <<0, 0, 0>>, big |-> TRUE] }
+\* ---- NaiveDateTime / DateTime (time zone and abbreviation are binaries; the offsets are seconds, i32 in the wrapper)
+KYear == K(<<121,101,97,114>>)  KMonth == K(<<109,111,110,116,104>>)  KDay == K(<<100,97,121>>)  KHour == K(<<104,111,117,114>>)  KMinute == K(<<109,105,110,117,116,101>>)  KSecond == K(<<115,101,99,111,110,100>>)
+KMicro == K(<<109,105,99,114,111,115,101,99,111,110,100>>)  KCal == K(<<99,97,108,101,110,100,97,114>>)  KStruct == K(<<95,95,115,116,114,117,99,116,95,95>>)
+KZone == K(<<116,105,109,101,95,122,111,110,101>>)  KAbbr == K(<<122,111,110,101,95,97,98,98,114>>)  KUtcOff == K(<<117,116,99,95,111,102,102,115,101,116>>)  KStdOff == K(<<115,116,100,95,111,102,102,115,101,116>>)
+NaiveT(y, mo, d, h, mi, s, us, prec) == Struct(<<69,108,105,120,105,114,46,78,97,105,118,101,68,97,116,101,84,105,109,101>>,
+                   << <<KYear, y>>, <<KMonth, mo>>, <<KDay, d>>, <<KHour, h>>, <<KMinute, mi>>, <<KSecond, s>>, <<KMicro, VTuple(<<us, prec>>)>>, <<KCal, ISO>> >>)
+DateTimeT(y, mo, d, h, mi, s, us, prec, tz, ab, uo, so) == Struct(<<69,108,105,120,105,114,46,68,97,116,101,84,105,109,101>>,
+                   << <<KYear, y>>, <<KMonth, mo>>, <<KDay, d>>, <<KHour, h>>, <<KMinute, mi>>, <<KSecond, s>>, <<KMicro, VTuple(<<us, prec>>)>>, <<KCal, ISO>>,
+                      <<KZone, tz>>, <<KAbbr, ab>>, <<KUtcOff, uo>>, <<KStdOff, so>> >>)
+Zones == { <<<<69,116,99,47,85,84,67>>, <<85,84,67>>>>, <<<<69,117,114,111,112,101,47,66,101,114,108,105,110>>, <<67,69,84>>>> }      \* every zone with every offset: the fields are independent
+Offsets == {0, 3600, 0 - 12600}
+NegBig31 == VInt(TRUE, <<1, 0, 0, 128>>)             \* -(2^31 + 1)
+DtMutations ==
+  LET n == NaiveT(IntV(2024), IntV(2), IntV(29), IntV(23), IntV(59), IntV(58), IntV(123000), IntV(3))
+      Dt(z, uo, so) == DateTimeT(IntV(2024), IntV(2), IntV(29), IntV(23), IntV(59), IntV(58), IntV(123000), IntV(3), VBin(z[1]), VBin(z[2]), uo, so)
+      Required == {KYear, KMonth, KDay, KHour, KMinute, KSecond, KStruct} IN
+  { [kind |-> "naive", why |-> "missing key", term |-> DropKey(n, i)] : i \in {j \in 1..Len(n.kv) : n.kv[j][1] \in Required} }
+  \cup { [kind |-> "naive", why |-> "field does not fit its type", term |-> x] : x \in {NaiveT(Big31, IntV(1), IntV(1), IntV(0), IntV(0), IntV(0), IntV(0), IntV(0)),
+            NaiveT(IntV(1), IntV(256), IntV(1), IntV(0), IntV(0), IntV(0), IntV(0), IntV(0)), NaiveT(IntV(1), IntV(1), IntV(1), IntV(0 - 1), IntV(0), IntV(0), IntV(0), IntV(0)),
+            NaiveT(IntV(1), IntV(1), IntV(1), IntV(0), IntV(0), IntV(300), IntV(0), IntV(0)), NaiveT(IntV(1), IntV(1), IntV(1), IntV(0), IntV(0), IntV(0), Big32, IntV(6))} }
+  \cup { [kind |-> "naive", why |-> "field of the wrong type", term |-> NaiveT(IntV(1), IntV(1), Bad, IntV(0), IntV(0), IntV(0), IntV(0), IntV(0))],
+         [kind |-> "naive", why |-> "wrong __struct__", term |-> Dt(<<<<69,116,99,47,85,84,67>>, <<85,84,67>>>>, Zero, Zero)],
+         [kind |-> "datetime", why |-> "wrong __struct__", term |-> n] }
+  \cup UNION { LET t == Dt(z, IntV(3600), Zero) IN
+               { [kind |-> "datetime", why |-> "missing key", term |-> DropKey(t, i)] : i \in {j \in 1..Len(t.kv) : t.kv[j][1] \in Required \cup {KZone, KAbbr, KUtcOff, KStdOff}} }
+               \cup { [kind |-> "datetime", why |-> "field does not fit its type", term |-> x] : x \in {Dt(z, Big31, Zero), Dt(z, Zero, Big32), Dt(z, NegBig31, Zero), Dt(z, IntV(3600), Big64)} }
+               \cup { [kind |-> "datetime", why |-> "field of the wrong type", term |-> x] : x \in {Dt(z, Bad, Zero), Dt(z, Zero, VFloat(<<64,61,0,0,0,0,0,0>>)), Dt(z, VBin(<<49>>), Zero),
+                         DateTimeT(IntV(2024), IntV(2), IntV(29), IntV(23), IntV(59), IntV(58), IntV(0), IntV(0), Bad, VBin(z[2]), Zero, Zero),
+                         DateTimeT(IntV(2024), IntV(2), IntV(29), IntV(23), IntV(59), IntV(58), IntV(0), IntV(0), VBin(z[1]), IntV(5), Zero, Zero)} }
+             : z \in Zones }
+DtValid ==
+  { [kind |-> "naive", term |-> NaiveT(IntV(y), IntV(mo), IntV(d), IntV(h), IntV(59), IntV(58), IntV(up[1]), IntV(up[2])), fields |-> <<y, mo, d, h, 59, 58, up[1], up[2]>>] :
+       y \in {2024, 0 - 1}, mo \in {1, 12}, d \in {1, 31}, h \in {0, 23}, up \in {<<0, 0>>, <<999999, 6>>} }
+  \cup { [kind |-> "datetime", term |-> DateTimeT(IntV(2024), IntV(2), IntV(29), IntV(h), IntV(0), IntV(1), IntV(up[1]), IntV(up[2]), VBin(z[1]), VBin(z[2]), IntV(uo), IntV(so)),
+           fields |-> <<2024, 2, 29, h, 0, 1, up[1], up[2], z[1], z[2], uo, so>>] : h \in {0, 23}, up \in {<<0, 0>>, <<123000, 3>>}, z \in Zones, uo \in Offsets, so \in Offsets }
 \* ------------------------------------------------------------------ proplists and maps (erltf term.rs helpers)
 \* A proplist element is a pair {K, V} or a bare atom A (short for {A, true}); anything else is ignored by the helpers.
 \* proplist_to_map: pairs in list order, a later occurrence of a key replaces an earlier one; map_to_proplist: one pair per entry.
